@@ -101,6 +101,17 @@ class Deployment:
             return st
         if self.kind.startswith("grpc("):
             st = self.server.new_client(proc)
+        elif self.cfg.get("pickled_clients") and self.inner_kind.startswith(("jf", "jr")) and self.storages:
+            # the way multiprocessing hands a storage to a worker process: a pickled copy of
+            # the parent's object (JournalStorage.__setstate__ must give it its own identity)
+            import pickle
+
+            first = self.storages[sorted(self.storages)[0]]
+            redis = getattr(first._backend, "_redis", None)
+            st = pickle.loads(pickle.dumps(first))
+            if redis is not None:
+                st._backend._redis = redis  # the unpickled backend would reconnect by URL
+            self.sim.count("pickled_client")
         else:
             st = self._new_inner(proc)
         self.storages[proc.name] = st
